@@ -1,9 +1,11 @@
-\* quick (layout): the moved class a.C (plain / with a nested class / enum; 3 header shapes; LF, CRLF, no final newline)
-\* and one importer b.U (3 header shapes, blank line or not before the imports, every list of 1..2 imports out of
-\* {a.C, a.CX, a.*, static a.C.make, decorated a.C}); one move; repaired switches (proposed_fixes/X01-1..3.patch)
+\* quick (layout, star-shaped): every moved file a.C (plain / nested class / enum / interface; 3 header shapes; LF, CRLF,
+\* with and without final newline) with the simplest importer; every importer b.U (3 header shapes, blank line or not
+\* before the imports, every list of 1..2 imports out of {a.C, a.CX, a.*, static a.C.make, decorated a.C}, eol, final
+\* newline) with the simplest moved file and with a CRLF moved file that declares a nested class; one move;
+\* repaired switches (proposed_fixes/X01-1..3.patch)
 SPECIFICATION Spec
 CONSTANTS
-  Histories <- HistoriesLayoutQuick
+  Pool = "layout-quick"
   NameRule = "file"
   CopyNode = TRUE
   KeepCR = TRUE
